@@ -295,6 +295,13 @@ func truncateCmapSubtable(t *rapid.T, sub []byte) []byte {
 		cut = rapid.IntRange(1, len(sub)).Draw(t, "subCutAny")
 	}
 	n := len(sub) - cut
+	if rapid.IntRange(0, 3).Draw(t, "tinySub") == 0 {
+		// down to the bare header fields (and between them)
+		n = rapid.IntRange(6, 17).Draw(t, "tinyLen")
+		if n > len(sub) {
+			n = len(sub)
+		}
+	}
 	switch format {
 	case 0, 2, 4, 6:
 		if n < 6 {
@@ -304,7 +311,7 @@ func truncateCmapSubtable(t *rapid.T, sub []byte) []byte {
 		out[2], out[3] = byte(n>>8), byte(n)
 		return out
 	case 8, 10, 12, 13:
-		if n < 12 {
+		if n < 8 {
 			return sub
 		}
 		out := append([]byte(nil), sub[:n]...)
